@@ -20,10 +20,10 @@ let rp_build (f : string array) : Model.response =
   let ctor = f.(1) and st = n_of_string f.(2) and hs = headers_of f.(3) and body = unhex f.(4)
   and len = opt_n f.(5) in
   let r0 = match ctor with
-    | "new" -> Model.new_response st hs body len
+    | "new" | "newch" -> Model.new_response st hs body len
     | "data" | "file" -> Model.from_data body
     | "string" -> Model.from_string body
-    | "empty" -> Model.empty_response st
+    | "empty" | "emptyc" -> Model.empty_response st
     | _ -> failwith "ctor" in
   Model.build r0 (rp_ops f)
 
@@ -31,12 +31,12 @@ let rp_build (f : string array) : Model.response =
 let rp_ctor_spec (f : string array) : Model.n option * Model.header list =
   let body = unhex_string f.(4) in
   match f.(1) with
-  | "new" -> (opt_n f.(5), headers_of f.(3))
+  | "new" | "newch" -> (opt_n f.(5), headers_of f.(3))
   | "data" | "file" -> (Some (n_of_int (String.length body)), [])
   | "string" -> (Some (n_of_int (String.length body)),
                  [ { Model.hname = bytes_of_string "Content-Type";
                      Model.hvalue = bytes_of_string "text/plain; charset=UTF-8" } ])
-  | "empty" -> (Some (n_of_int 0), [])
+  | "empty" | "emptyc" -> (Some (n_of_int 0), [])
   | _ -> failwith "ctor"
 
 let obs_field (o : string array) (key : string) : string =
@@ -75,6 +75,7 @@ let parse_action (a : string) : Model.action =
               | _ -> failwith "R")
     | 'D' | 'P' -> Model.FDrop
     | 'W' | 'X' | 'Y' | 'F' | 'V' -> Model.FWriter (unhex rest)
+    | 'E' -> Model.FRespond (n_of_string "200", unhex rest, false)   (* the body source fails after these bytes: an undeclared-length 200 with them *)
     | 'Z' | 'Q' -> Model.FWriter []
     | 'U' -> Model.FUpgrade (unhex rest)
     | _ -> failwith "finish" in
@@ -122,7 +123,7 @@ let ra_case (f : string array) : string =
   let st = { Model.sbytes = unhex f.(2); Model.seof = true } in
   let a = f.(3) in
   let act =
-    if a = "all" then Model.RlReadAll
+    if a = "all" || a = "allv" then Model.RlReadAll
     else if String.length a > 4 && String.sub a 0 4 = "part" then Model.RlReadPart (n_of_string (String.sub a 4 (String.length a - 4)))
     else Model.RlGoesAway in
   let (a1, a2) = Model.ahead_two cfg act st in
